@@ -123,7 +123,11 @@ TrOut ==
     /\ LET I  == inp
            ns == SeqSet(I.nodes)
            vs == SeqSet(Ev.validators)
-           el == {n \in ns : Eligible(n, I)}
+           elBase == {n \in ns : Eligible(n, I)}
+           \* VRF beacon: when at least MinValidators stake-eligible validator nodes proved for the previous alpha, the
+           \* election sorts by hashed betas and only nodes with a proof take part (shuffleValidators / sortNodesByHashedBeta)
+           withPi == {n \in elBase : n.pi}
+           el == IF HasF(I, "vrf") /\ I.vrf /\ Cardinality(withPi) >= Ev.min_validators THEN withPi ELSE elBase
            nodeOf(v) == {n \in ns : n.cons = v.cons}
            elEnts == {v.ent : v \in vs}
            stake(e) == I.entities[e].escrow
